@@ -63,22 +63,24 @@ def duplicates(
     if sc.harness_errors():
         raise RuntimeError(str(sc.harness_errors())[:300])
     ok = True
+    deps = schedlib.SHAPES[shape]
+
+    def can_fail(i):
+        # the job fails by itself or is cancelled by a failed ancestor: a
+        # later identical submission is then a legitimate re-submission
+        return codes[i] != 0 or any(codes[j] != 0 for j in schedlib.transitive_deps(deps, i))
+
     for (i, cfg, out) in sc.dups:
         first = sc.jobs[i]
-        failed = first.state == SB.JobState.ERROR
-        if out is not sc.outputs[i]:
-            # allowed only if the first submission had already failed when
-            # the duplicate was submitted (re-submission)
-            if cfg.__xpm__.job is not None and cfg.__xpm__.job in sc.xp.scheduler.jobs.values() and cfg.__xpm__.job is not first:
-                if codes[i] == 0:
-                    rt.note("FAIL: duplicate of a non-failed job was registered")
-                    ok = False
-            elif codes[i] == 0:
-                rt.note("FAIL: duplicate did not return the first submission's output")
-                ok = False
+        if out is not sc.outputs[i] and not can_fail(i):
+            rt.note("FAIL: duplicate of a non-failed job did not return the first submission's output")
+            ok = False
+        if cfg.__xpm__.job is not first and cfg.__xpm__.job in sc.xp.scheduler.jobs.values() and not can_fail(i):
+            rt.note("FAIL: duplicate of a non-failed job was registered")
+            ok = False
     for i in range(n):
         nl = len(sc.launches(i)) + len(sc.launches(("dup", i)))
-        if codes[i] == 0 and nl > 1:
+        if not can_fail(i) and nl > 1:
             rt.note(f"FAIL: job {i} launched {nl} times although it succeeded")
             ok = False
     if len(sc.xp.scheduler.jobs) != n:
